@@ -68,6 +68,11 @@ func regsFrom(s []int) cpu.VerifRegs {
 
 // poke writes through the mapper without the observer seeing it.
 func (r *cpuRig) poke(addr int, v int) {
+	// placing "data" at a register with side effects is not placing data: FF46 would start a DMA, FF40 switch the LCD
+	// on, FF04-FF07 move the timer (the sound registers are fair game for the mem family)
+	if addr&0xffff >= 0xff00 && addr&0xffff <= 0xff0f || addr&0xffff >= 0xff40 && addr&0xffff <= 0xff4b {
+		return
+	}
 	on := r.cpuOn
 	r.cpuOn = false
 	r.m.M.Write(uint16(addr), uint8(v))
